@@ -96,6 +96,8 @@ func runC01(p *Prog, r *Result) {
 	checkSeparatorFlagCleared(p, r, "R01i")
 	r.Rule("R01j", "whatever root Print is given, every path from the call that writes it to Print's return passes flushHeredocs: a queued body is not left unwritten", 4)
 	checkPrintFlushesHeredocs(p, r, "R01j")
+	r.Rule("R01l", "every unary arithmetic operator whose text begins with + or - gets a space before it at the start of a slice offset: `${a: --b}` is not `${a:--b}`", 4)
+	checkSliceSignsSpaced(p, r, "R01l")
 	r.Rule("R01k", "the printer sets pending here-documents aside around a nested statement list exactly for the node types whose statements the parser reads with the pending list buried", 6)
 	checkHeredocBuryingAgrees(p, r, "R01k")
 	pkg := si.pkg
@@ -483,6 +485,8 @@ func inDefaultOfRootSwitch(g *FGraph, b *FBlock) bool {
 }
 
 var c01Controls = []Control{
+	{Name: "slice-offset-increment-glued-to-the-colon", Rule: "R01l", WantKey: "arithmExprRecurse#a leading Dec", File: "syntax/printer.go",
+		Mutate: ctlReplaceAnywhere("\t\t\t\tcase Plus, Minus, Inc, Dec:\n", "\t\t\t\tcase Plus, Minus:\n")},
 	{Name: "process-substitution-flushes-outer-heredocs", Rule: "R01k", WantKey: "wordPart#statements of ProcSubst", File: "syntax/printer.go",
 		Mutate: ctlReplaceAnywhere("\t\t// See the same in cmdSubst.\n\t\thdocs := p.pendingHdocs\n\t\tp.pendingHdocs = nil\n", "\t\thdocs := p.pendingHdocs[:0:0]\n")},
 	{Name: "subshell-buries-pending-heredocs", Rule: "R01k", WantKey: "command#statements of Subshell", File: "syntax/parser.go",
